@@ -49,6 +49,8 @@ type proxyClient struct {
 	conn       RpcReadWriter
 	toServer   chan command
 	fromServer chan *goatorepo.Rpc
+	// proxyCtx is the proxy's own context, set before the loops start.
+	proxyCtx context.Context
 	// reported is set once this connection's failure has been handed to the
 	// forwarding loop: one failure is one disconnect callback.
 	reported atomic.Bool
@@ -194,6 +196,9 @@ func (c *proxyClient) report(ctx context.Context, err error) {
 	if !c.reported.CompareAndSwap(false, true) {
 		return
 	}
+	if c.proxyCtx != nil {
+		ctx = c.proxyCtx
+	}
 	select {
 	case c.toServer <- command{id: c.id, err: err, from: c}:
 	case <-ctx.Done():
@@ -237,6 +242,11 @@ func (c *proxyClient) writeLoop(ctx context.Context) error {
 }
 
 func (c *proxyClient) readWrite(ctx context.Context) {
+	// Failures are reported for as long as the proxy lives, not only for as
+	// long as this connection's loops do: the second loop to fail ends the
+	// group's context, which must not call back a report already on its way.
+	c.proxyCtx = ctx
+
 	e, ctx := errgroup.WithContext(ctx)
 	e.Go(func() error { return c.readLoop(ctx) })
 	e.Go(func() error { return c.writeLoop(ctx) })
